@@ -218,6 +218,7 @@ def run(ctx) -> None:
 DS = "utils/dirsnapshot.py"
 PO = "observers/polling.py"
 VARIANTS = [
+    dict(name="B entry.path instead of join(root, entry.name)", expect="fire", rule="C10/entries-spelled-under-the-listed-directory", edits=[("utils/dirsnapshot.py", "paths = [os.path.join(root, entry.name) for entry in self.listdir(root)]", "paths = [entry.path for entry in self.listdir(root)]")]),
     dict(name="B listing consumed lazily outside the guarded region", expect="fire", rule="C10/tolerant-walk-at-every-position", edits=[("utils/dirsnapshot.py", "            paths = [os.path.join(root, entry.name) for entry in self.listdir(root)]", "            paths = (os.path.join(root, entry.name) for entry in self.listdir(root))")]),
     dict(name="E listing materialised with list() inside the guarded region", expect="silent", edits=[("utils/dirsnapshot.py", "            paths = [os.path.join(root, entry.name) for entry in self.listdir(root)]", "            paths = list(os.path.join(root, entry.name) for entry in self.listdir(root))")]),
     dict(name="B drop ENOTDIR from the errno tuple", expect="fire", rule="C10/tolerant-walk-at-every-position", edits=[(DS, "if e.errno in (errno.ENOENT, errno.ENOTDIR, errno.EINVAL):", "if e.errno in (errno.ENOENT, errno.EINVAL):")]),
